@@ -211,10 +211,11 @@ where
 
                             #[cfg(getong_stateright_verif)]
                             crate::job_market::verif::yield_point("after_block");
-                            // Step 2: Share work.
-                            if pending.len() > 1 && thread_count > 1 {
-                                job_broker.split_and_push(&mut pending);
-                            }
+                            // Step 2: Share work. The market is visited after every block, even when
+                            // there is nothing to share or nobody to share with: this is where a
+                            // worker learns that the market was closed (timeout, another worker
+                            // finished) and discards its remaining work.
+                            job_broker.split_and_push(&mut pending);
                         }
                     })
                     .expect("Failed to spawn a thread"),
